@@ -17,6 +17,7 @@ import (
 )
 
 var ErrInjected = errors.New("recstore: injected fault")
+var ErrAckLost = errors.New("recstore: injected fault: the write was applied but its acknowledgement was lost")
 var ErrDead = errors.New("recstore: incarnation is dead")
 var ErrTooManyRetries = errors.New("recstore: failed to CAS (too many conflicts)")
 
@@ -87,6 +88,9 @@ type Faults struct {
 	// FailGets / FailCAS: predicate on the 1-based ordinal of the call by this handle.
 	FailGet func(n int) bool
 	FailCAS func(n int) bool
+	// LoseAck: predicate on the ordinal of the CAS call, like FailCAS, but the call runs normally and, if it commits,
+	// the caller is told it failed (the write was applied, its acknowledgement was lost).
+	LoseAck func(n int) bool
 	// Conflict: predicate on the ordinal of the CAS attempt: pretend a concurrent
 	// writer won (forces the retry path) -- at most MaxConflicts in a row.
 	Conflict func(n int) bool
@@ -230,6 +234,7 @@ func (h *Handle) CAS(ctx context.Context, key string, f func(in interface{}) (ou
 	h.cass++
 	n := h.cass
 	fail := h.F.FailCAS != nil && h.F.FailCAS(n)
+	loseAck := !fail && h.F.LoseAck != nil && h.F.LoseAck(n)
 	h.mu.Unlock()
 	if fail {
 		return ErrInjected
@@ -323,6 +328,9 @@ func (h *Handle) CAS(ctx context.Context, key string, f func(in interface{}) (ou
 		h.mu.Unlock()
 		if crashAfter {
 			return h.park(ctx)
+		}
+		if loseAck {
+			return ErrAckLost
 		}
 		return nil
 	}
